@@ -173,6 +173,63 @@ def make_fault(bound):
             proj.cleanup()
     return fn
 
+
+KILL_BOUND = {"quick": 48, "thorough": 96}
+
+
+def make_killed(bound):
+    """run; run --again killed (the process dies, no clean-up) at the k-th executed line of execution/ops/combine_outputs.py;
+    run --again once more, undisturbed: it must exit 0 and every entry must resolve to the version written in that last run -
+    whatever the killed run left behind in the combine's output directory."""
+    def fn(g):
+        import conductor.cli.run as cli_run
+        from vlib import crash
+        only = ("execution/ops/combine_outputs.py",)
+        deps = [TaskSpec("d0", "run_experiment", [], pkg=""), TaskSpec("d1", "run_experiment", [], pkg="p")]
+        cspec = TaskSpec("c", "combine", [":d0", "//p:d1"], pkg="")
+        kb = g.choose("kill_block", bound // 8)
+        g.shard_point()
+        k = kb * 8 + g.choose("kill_offset", 8)
+        proj = hrun.Project()
+        try:
+            proj.write_tasks(deps + [cspec])
+
+            class W(fakeos.Sched):
+                def on_spawn(self, kernel, proc):
+                    graphs.output_writer(kernel, proc)
+
+                def status_for(self, kernel, proc):
+                    return fakeos.StatusExited(0)
+
+            def run(r, kill):
+                def f():
+                    kern = fakeos.Kernel(W(), clock=fakeos.Clock(lambda i, r=r: 1000.0 + 10 * r))
+                    return hrun.invoke(cli_run.main, hrun.run_ns(task_identifier=cspec.ident, again=(r >= 1)), str(proj.root), kern).status
+                return crash.run_in_child(f, kill, only)
+            r0 = run(0, None)
+            g.require(r0.get("result") == 0, "combine:run-failed", "first run: %r" % (r0,))
+            r1 = run(1, k)
+            if "child_error" in r1:
+                g.require(False, "combine:harness-child-error", "%s" % r1["child_error"])
+            D = "second run killed at line event %d (%s)" % (k, r1.get("killed_at")) if r1["killed"] else "second run not killed (k=%d beyond its %s line events)" % (k, r1.get("lines"))
+            r2 = run(2, None)
+            g.require(r2.get("result") == 0, "combine:run-failed-after-killed-run", "third run: %r; %s" % (r2, D))
+            cout = proj.out / "c.task"
+            for s_ in deps:
+                tss = [row[1] for row in proj.index_rows() if row[0] == s_.ident]
+                g.require(len(tss) >= 2 and max(tss) >= 1020, "combine:run-did-not-record", "%s %s; %s" % (s_.ident, tss, D))
+                target = str(proj.out / s_.pkg / ("%s.task.%d" % (s_.name, max(tss))))
+                link = cout / s_.name
+                g.require(os.path.lexists(link) and os.path.realpath(link) == os.path.realpath(target), "combine:entry-wrong-or-missing",
+                          "%s -> %s, expected the version written in the last run: %s; left in c.task: %s; %s" % (
+                              link, os.path.realpath(link) if os.path.lexists(link) else None, target, sorted(os.listdir(cout)), D))
+            if r1["killed"]:
+                g.goal("combine killed midway, then re-run")
+            return {"nontrivial": bool(r1["killed"]), "sample": {"case": D}}
+        finally:
+            proj.cleanup()
+    return fn
+
 def scale_fn(g):
     """A combine over 12 dependencies (more than any worker/batch count), two runs."""
     import conductor.cli.run as cli_run
@@ -269,6 +326,10 @@ def spaces(tier):
                     "file-system call made on behalf of Conductor under cond-out fails with EACCES (invocation and position k <= %d are decision "
                     "variables); a failing invocation is accepted, an exit 0 with a wrong or missing entry is not" % FS_BOUND[tier], depth=6,
                     goals=["injected fault fired"], outside=["more than one fault", "other errno values", "faults of stat and of calls relative to a directory fd"]))
+    sp.append(Space("killed-then-rerun", make_killed(KILL_BOUND[tier]), "combine over two experiments: run; run --again killed at the k-th executed line of "
+                    "execution/ops/combine_outputs.py (k < %d, a decision variable; the process dies without clean-up); run --again undisturbed: exit 0 and "
+                    "every entry resolves to the version written in that last run" % KILL_BOUND[tier], depth=2,
+                    goals=["combine killed midway, then re-run"], outside=["kills outside combine_outputs.py", "line granularity", "power loss"]))
     sp.append(Space("scale-twelve-deps", scale_fn, "a combine over 12 dependencies (experiments and commands in 4 packages), combine in the root or "
                     "3 packages deep, one or four runs (--again)", depth=3, goals=["combine over more than eight dependencies"]))
     sp.append(Space("two-combines-one-invocation", two_combines_fn, "5 tasks: combine c1 over d1, d2; experiment e depending on c1; combine c2 over d1 and e; "
